@@ -37,6 +37,7 @@ Verify everything yourself before finishing: (i) demo passes on the clean tree, 
 DIVERSITY = {
     "default": "For diversity: make at least one of them a change in a Jinja template (openapi_python_client/templates/**) or a change whose effect depends on a configuration option (see README.md, section Configuration) or on the interplay of two document features (e.g. a feature used inside another feature, or the same component used in two roles); avoid the most obvious single-line site for this property.",
     "5": "For diversity: change A must live in one of the less obvious areas - openapi_python_client/schema/** (the pydantic models that parse the document), openapi_python_client/utils.py, config.py, cli.py or the project-assembly code in openapi_python_client/__init__.py - or in a shared helper template (templates/property_templates/helpers.jinja, property_macros.py.jinja, endpoint_macros.py.jinja, types.py.jinja, client.py.jinja). Change B must be one whose effect needs at least THREE conditions to hold at once (for example: a particular option AND a particular schema feature AND a particular position or order in the document), or that only shows on the second use of something (state carried over from an earlier schema, operation or command). Avoid the most obvious site for this property.",
+    "6": "For diversity: earlier rounds already produced many changes in parser/openapi.py, __init__.py, enum_property.py, utils.py, schemas.py and model_property.py - stay away from those files unless the property cannot be broken elsewhere. Change A should live, if the property can be broken there, in one of the per-type pieces: openapi_python_client/templates/property_templates/*.jinja other than union/list (date, datetime, uuid, file, model, enum, const, float, int, boolean, any ...), templates/client.py.jinja, templates/types.py.jinja, templates/endpoint_init / package-level templates, or openapi_python_client/parser/properties/{protocol,property,date,datetime,float,int,string,uuid,file,none,boolean,any,const,list_property,union}.py. Change B should live, if possible, in openapi_python_client/schema/** other than schema.py (parameter.py, operation.py, path_item.py, media_type.py, response.py, reference.py, data_type.py, parameter_location.py ...), parser/bodies.py, parser/responses.py, parser/errors.py, parser/properties/merge_properties.py, config.py or cli.py, and its effect must need at least TWO conditions at once or state carried over from something processed earlier (an earlier schema, operation, response or command). If neither area can break this property, choose the least obvious site you can find and say so in NOTES.md.",
 }
 
 
